@@ -610,7 +610,11 @@ func implC08(h caseHead, raw []byte) (res map[string]any) {
 			res["err"] = fmt.Sprint(r)
 		}
 	}()
-	_, err := pkg.CompileProfile(h.Profile, false, nil)
+	var dh struct {
+		Debug bool `json:"debug"`
+	}
+	json.Unmarshal(raw, &dh)
+	_, err := pkg.CompileProfile(h.Profile, dh.Debug, nil)
 	if err == nil {
 		res["outcome"] = "accepted"
 		res["unsafeRejected"] = false
